@@ -91,6 +91,12 @@ class UpdateReferences:
           found = True
       elif isinstance(elem, gfapy.OrientedLine):
         if elem.line is oldref:
+          if newref is None:
+            # the mention is dropped (see below), the oriented line is not
+            # emptied (an oriented line cannot refer to no line)
+            lst[idx] = None
+            found = True
+            continue
           if hasattr(oldref, "is_complement") and newref is not None and \
               newref.is_compatible_complement(oldref.oriented_from,
                 oldref.oriented_to, oldref.overlap):
